@@ -507,6 +507,8 @@ def replay(hi, rec):
         prev_v = st["obs"]["v"]
 
 static = {}
+intro = {}
+import dataclasses as _dc
 for cid, cls in classes.items():
     try:
         ma = cls.__match_args__
@@ -515,6 +517,26 @@ for cid, cls in classes.items():
         static[cid] = "absent"
     except BaseException as e:
         static[cid] = ename(e)
+    # introspection: __dataclass_params__ and dataclasses.fields()
+    try:
+        tys = [f["ty"] for f in cfgs[cid]["f"]]
+        p = cls.__dataclass_params__
+        params = {k: getattr(p, a) for k, a in (("init", "init"), ("repr", "repr"), ("eq", "eq"), ("order", "order"), ("uhash", "unsafe_hash"),
+                                                ("frozen", "frozen"), ("kwo", "kw_only"), ("margs", "match_args"))}
+        fl = []
+        for f in _dc.fields(cls):
+            ty = tys[NAMES.index(f.name)]
+            if f.default is not _dc.MISSING:
+                kind = "value" if decode(ty, f.default, None) == 3 else "value:other"
+            elif f.default_factory is not _dc.MISSING:
+                kind = "factory" if decode(ty, f.default_factory(), None) == 4 else "factory:other"
+            else:
+                kind = "none"
+            fl.append({"name": f.name, "init": f.init, "repr": f.repr, "cmp": f.compare,
+                       "hash": {None: "none", True: "true", False: "false"}.get(f.hash, "other"), "dflt": kind})
+        intro[cid] = {"is_dataclass": _dc.is_dataclass(cls), "params": params, "fields": fl}
+    except BaseException as e:
+        intro[cid] = ename(e) + ": " + str(e)[:200]
 
 with open(histfile) as f:
     for hi, line in enumerate(f):
@@ -527,5 +549,5 @@ with open(histfile) as f:
         except BaseException as e:
             bad.append({"hist": hi, "step": -1, "aspect": "harness", "want": "replay completes", "got": ename(e) + ": " + str(e)[:200]})
 with open(outfile, "w") as f:
-    json.dump({"bad": bad, "counts": counts, "deferr": deferr, "match_args": static, "classes": sorted(classes)}, f)
+    json.dump({"bad": bad, "counts": counts, "deferr": deferr, "match_args": static, "intro": intro, "classes": sorted(classes)}, f)
 '''
